@@ -134,14 +134,18 @@ def _fix_undefined_variables(source: str, variables: Collection[str]) -> str:
 
     lines = source.splitlines()
     change_count = -len(lines)
-    lineno = next(
-        i
-        for i, line in enumerate(lines)
-        if not line.startswith("#")
-        and not line.startswith("'''")
-        and not line.startswith('"""')
-        and not line.startswith("from __future__ import")
-    )
+
+    # Insert below the module docstring and the __future__ imports, which must stay first
+    lineno = 0
+    for i, node in enumerate(core.parse(source).body):
+        is_docstring = i == 0 and core.match_template(node, ast.Expr(value=ast.Constant(value=str)))
+        if not is_docstring and not core.match_template(node, ast.ImportFrom(module="__future__")):
+            break
+        lineno = node.end_lineno
+
+    # ...and below the comments that follow them, or that the file starts with
+    while lineno < len(lines) and lines[lineno].startswith("#"):
+        lineno += 1
     for package, package_variables in constants.ASSUMED_SOURCES.items():
         overlap = variables.intersection(package_variables)
         if overlap:
